@@ -584,14 +584,58 @@ def r6(run, ctx):
     # TransformableFuture relays on every path
     f = ctx.fn('circus.util:TransformableFuture._internal_callback')
     cfg = ctx.cfg(f)
-    relay = [nd for nd in ctx.live_nodes(f)
-             if any('_upstream_callback' in norm_text(c.func) for c in nd.calls())]
-    run.need('R6', relay, 'invocation of the upstream callback', f)
-    r = reach_under(cfg, cfg.entry, lambda e: (False if (isinstance(e, ast.Compare) and
-                    '_upstream_callback' in norm_text(e.left) and
-                    isinstance(e.ops[0], ast.Is)) else (True if isinstance(e, ast.Compare) and
-                    '_upstream_callback' in norm_text(e.left) else None)), avoid=relay)
-    run.check('R6', cfg.exit.id not in r, 'the registered callback is invoked on every path '
+    from sa.dataflow import reaching_defs
+    # where add_done_callback keeps what it is given: self.A = fn / [fn] / self.A.append(fn)
+    adc = ctx.fn('circus.util:TransformableFuture.add_done_callback')
+    params = [a.arg for a in adc.node.args.args[1:]]
+    slots = set()
+    for nd in ctx.live_nodes(adc):
+        if nd.kind == 'stmt' and isinstance(nd.ast, ast.Assign):
+            for t in nd.ast.targets:
+                if isinstance(t, ast.Attribute) and dotted(t.value) == 'self' and any(
+                        isinstance(x, ast.Name) and x.id in params for x in ast.walk(nd.ast.value)):
+                    slots.add(t.attr)
+        for c in nd.calls():
+            if isinstance(c.func, ast.Attribute) and c.func.attr in ('append', 'add') and \
+                    isinstance(c.func.value, ast.Attribute) and dotted(c.func.value.value) == 'self' \
+                    and any(isinstance(a, ast.Name) and a.id in params for a in c.args):
+                slots.add(c.func.value.attr)
+    run.need('R6', sorted(slots), 'slot in which add_done_callback keeps the callback', adc,
+             'add_done_callback does not keep the callback: it is never run')
+    rdf = reaching_defs(ctx, f)
+
+    def from_slot(node, e):
+        return any(any(isinstance(x, ast.Attribute) and x.attr in slots and
+                       dotted(x.value) == 'self' for x in ast.walk(a.expr))
+                   for a in rdf.expand(node, e))
+    relay, loop_relay = [], []
+    for nd in ctx.live_nodes(f):
+        for c in nd.calls():
+            if isinstance(c.func, ast.Attribute) and c.func.attr in slots and \
+                    dotted(c.func.value) == 'self':
+                relay.append(nd)                       # self.A(self)
+            elif isinstance(c.func, ast.Name):
+                hdr = [h for h in cfg.nodes if h.kind == 'iter' and
+                       nd.id in cfg.branch_nodes(h, 'true') and
+                       isinstance(h.ast.target, ast.Name) and h.ast.target.id == c.func.id and
+                       from_slot(h, h.ast.iter)]
+                if hdr:
+                    loop_relay.append((hdr[-1], nd))   # for fn in <callbacks>: fn(self)
+    run.need('R6', relay + [n_ for _, n_ in loop_relay], 'invocation of the upstream callback', f)
+
+    def registered(e):
+        if isinstance(e, ast.Compare) and isinstance(e.ops[0], (ast.Is, ast.IsNot)) and \
+                astq.const_value(e.comparators[0], 0) is None and \
+                any(isinstance(x, ast.Attribute) and x.attr in slots for x in ast.walk(e.left)):
+            return isinstance(e.ops[0], ast.IsNot)
+        return None
+    must = relay + [h for h, _ in loop_relay]
+    r = reach_under(cfg, cfg.entry, registered, avoid=must)
+    ok = cfg.exit.id not in r
+    for h, nd in loop_relay:
+        start = [cfg.nodes[i] for i, lab in cfg.succ[h.id] if lab == 'true']
+        ok = ok and h.id not in cfg.reach(start, avoid=[nd], include_src=True)
+    run.check('R6', ok, 'the registered callback is invoked on every path '
               '(success and failure)', f, f.node)
     # exception() exposes the stored exception
     g = ctx.fn('circus.util:TransformableFuture.exception')
